@@ -11,11 +11,14 @@ import props_meta
 props = [json.loads(l) for l in open(os.path.join(ROOT, "properties.jsonl"))]
 hooks = subprocess.run(["git", "-C", "/repo", "log", "--format=%h %s"], stdout=subprocess.PIPE, text=True).stdout.splitlines()
 hook_commits = [l.split()[0] for l in hooks if l.split(" ", 1)[1].startswith("verif hook")]
+PENDING = set()
+if os.path.exists(os.path.join(ROOT, "meta", "pending.json")):
+    PENDING = set(json.load(open(os.path.join(ROOT, "meta", "pending.json"))))
 checks, na = [], []
 for p in props:
     pid = p["id"]
     m = props_meta.META.get(pid)
-    have = os.path.exists(os.path.join(ROOT, "driver/src/props/%s.rs" % pid.lower()))
+    have = os.path.exists(os.path.join(ROOT, "driver/src/props/%s.rs" % pid.lower())) and pid not in PENDING
     if m and have:
         checks.append({
             "property_id": pid,
